@@ -405,8 +405,17 @@ Definition own_step (t : list tev) (s : option N) (m : list (N * list N)) (e : t
   | TRet _ (OpAdopt _ _) (RetAdopt _ 0) _ _ _ => (None, true)
   | _ => (s, true)
   end.
+(* ... and a PUBREC goes out only while the reception marker of its identifier is in the
+   Persistence (saved just before, or found there for a duplicate): a PUBREC without marker lets
+   the retransmission that follows a lost PUBREC through as a new message.  Not on rewritten stores. *)
+Definition pubrec_after_marker (t : list tev) : bool :=
+  rewritten t ||
+  forallb (fun x => match x with
+                    | (_, PPubrec id, pos, _) => obs_has (store_at t pos) (id + 65536)
+                    | _ => true end) (out_packets t).
 Definition c04_core (h : histcase) : bool :=
-  let t := trace_of h in c07_ok h && forallb (answered t) (conns t) && fold_trace (own_step t) None [] t.
+  let t := trace_of h in
+  c07_ok h && forallb (answered t) (conns t) && fold_trace (own_step t) None [] t && pubrec_after_marker t.
 Definition c04_ok (h : histcase) : bool :=
   let t := trace_of h in c04_core h && forallb (new_session_fresh t) (conns t).
 Definition f25_match (h : histcase) : bool := c04_core h && negb (c04_ok h).
@@ -769,10 +778,35 @@ Definition up_step (t : list tev) (s : bool * bool) (m : list (N * list N)) (e :
   | _ => (s, true)
   end.
 
+Definition wrote_in_call (t : list tev) (i : N) : bool :=
+  existsb (fun e => match e with
+                    | TEv j (QWrite _ bs) a => (j =? i) && negb (len (accepted_of bs a) =? 0)
+                    | _ => false end) t.
+(* "requests issued while a connect attempt is in progress wait for its outcome and fail with
+   ErrDown after a failed attempt": when the ReadSlices call whose Load or dial failed has
+   returned (the harness lets 90 virtual ms pass before it looks), no request is still waiting
+   for the write token.  State: (next request number, requests seen waiting before any write). *)
+Definition lp_step (t : list tev) (s : N * list N) (m : list (N * list N)) (e : tev) : (N * list N) * bool :=
+  let '(nextr, lp) := s in
+  match e with
+  | TRet i o r done _ _ =>
+    let lp := filter (fun rid => negb (existsb (fun d => fst (fst d) =? rid) done)) lp in
+    match o with
+    | OpAdopt _ _ => match r with RetAdopt _ 0 => ((0, []), true) | _ => ((nextr, lp), true) end
+    | OpRead =>
+      ((nextr, lp), negb (call_loaded_cid t i && attempt_failed t i) || match lp with [] => true | _ => false end)
+    | _ =>
+      if spawn_op o then
+        ((nextr + 1, match r with RetParked => if wrote_in_call t i then lp else nextr :: lp | _ => lp end), true)
+      else ((nextr, lp), true)
+    end
+  | _ => (s, true)
+  end.
+
 Definition c18_ok (h : histcase) : bool :=
   let t := trace_of h in
   no_panic t && forallb (conn_setup_ok h t) (conns t) && fold_trace (cs_step h t) (mkCs false false) [] t
-  && resend_complete t && fold_trace (up_step t) (false, false) [] t.
+  && resend_complete t && fold_trace (up_step t) (false, false) [] t && fold_trace (lp_step t) (0, []) [] t.
 
 Definition c05_run := hist_run c05_ok.
 Definition c17_run := hist_run c17_ok.
@@ -793,10 +827,6 @@ Definition any_bit (e : err) (bits : list N) : bool := existsb (has_bit e) bits.
 Definition deny_end_disjoint (e : err) : bool := negb (has_bit e cls_deny && has_bit e cls_end).
 
 (* bytes written during call i, over all connections *)
-Definition wrote_in_call (t : list tev) (i : N) : bool :=
-  existsb (fun e => match e with
-                    | TEv j (QWrite _ bs) a => (j =? i) && negb (len (accepted_of bs a) =? 0)
-                    | _ => false end) t.
 Definition saved_in_call (t : list tev) (i : N) : bool :=
   existsb (fun e => match e with TEv j (QSave k _) ADone => (j =? i) && (in_alo k || in_eo k) | _ => false end) t.
 
@@ -831,6 +861,9 @@ Definition c14_ret (t : list tev) (e : tev) : bool :=
       deny_end_disjoint er && negb (has_bit er cls_deny) &&
       ((er =? 0) || any_bit er [cls_closed; cls_down; cls_canceled; cls_submit]) &&
       (if any_bit er [cls_closed; cls_down; cls_canceled] then negb (wrote_in_call t i) else true)
+    | OpReadBackoff er, RetWait k _ =>
+      (* ReadBackoff returns nil exactly for the permanent class (ErrClosed) *)
+      Bool.eqb (k =? 1) (has_bit er 2)
     | OpQuit rid, _ =>
       (* a quit signal leads only to ErrCanceled or ErrAbandoned *)
       forallb (fun d => if fst (fst d) =? rid then any_bit (snd (fst d)) [cls_canceled; cls_abandoned] else true) done
@@ -983,7 +1016,10 @@ Definition c16_ok := c16_gen false.
 Definition c02_ok (h : histcase) : bool := c16_gen true h && c01_ok h && c05_ok h.
 (* C05 "after a restart all unacknowledged ones are retransmitted": an adoption that drops records
    (warnings) turns the resend rule off, so C05 judges the adoptions as well *)
-Definition c05_full (h : histcase) : bool := c05_ok h && c16_gen true h.
+(* ... and the limits the client applied fit the identifier space: beyond it a later publish takes
+   the identifier (and the record) of an earlier one that is still pending, which puts it first *)
+Definition c05_full (h : histcase) : bool :=
+  c05_ok h && c16_gen true h && (s_max1 (cfg_of h) <=? 16384) && (s_max2 (cfg_of h) <=? 16384).
 
 (* F15 (recorded finding): the client identifier record is damaged or removed *)
 Definition f15_match (h : histcase) : bool :=
